@@ -135,7 +135,7 @@ def structural_update0(op, tree_tpl, parallel=False):
         return {'agents': {'_generate': [g]}}
     if o in ('div', 'divx'):
         tpl = tree_tpl[('agents', op['k'])]
-        if op.get('keyonly') and not parallel:
+        if op.get('keyonly'):
             # daughters named by key only: they get copies of the mother's
             # processes, steps, flow and topology
             return {'agents': {'_divide': {'mother': op['k'],
